@@ -479,9 +479,9 @@ impl<'a> Elim<'a> {
                             out.push_str(&format!("match {} {{ {} }} }}", self.t(range_of(&*m.expr)), arms));
                             return Some(out);
                         }
-                        Expr::Try(t) if !tail_value => {
+                        Expr::Try(t) if !tail_value && !leaves_closure(&t.expr) => {
                             // `X?;` in statement position
-                            if leaves_closure(&t.expr) || rest.is_empty() {
+                            if rest.is_empty() {
                                 return None;
                             }
                             let (okc, errarm) = self.try_arm()?;
@@ -489,7 +489,21 @@ impl<'a> Elim<'a> {
                             out.push_str(&format!("match {} {{ {}(_) => {}, {} }} }}", self.t(range_of(&*t.expr)), okc, tr, errarm));
                             return Some(out);
                         }
-                        _ => return None,
+                        other => {
+                            // `a?.b()?.c()` as a statement or as the value: spine `?`s one after the other
+                            let rest2 = rest.clone();
+                            let body = self.hoist_tries(other, move |me, left| {
+                                if tail_value {
+                                    Some(format!("{{ {} }}", left))
+                                } else {
+                                    let tr = me.seq(&rest2)?;
+                                    Some(format!("{{ {}; {} }}", left, tr))
+                                }
+                            })?;
+                            out.push_str(&body);
+                            out.push_str(" }");
+                            return Some(out);
+                        }
                     }
                 }
                 if let Some(Stmt::Local(l)) = st {
@@ -509,10 +523,7 @@ impl<'a> Elim<'a> {
                         return Some(out);
                     }
                     match &*init.expr {
-                        Expr::Try(t) => {
-                            if leaves_closure(&t.expr) {
-                                return None;
-                            }
+                        Expr::Try(t) if !leaves_closure(&t.expr) => {
                             let (okc, errarm) = self.try_arm()?;
                             let tr = self.seq(&rest)?;
                             out.push_str(&format!("match {} {{ {}(__v) => {{ let {} = __v; {} }}, {} }} }}", self.t(range_of(&*t.expr)), okc, pat, tr, errarm));
@@ -543,7 +554,20 @@ impl<'a> Elim<'a> {
                             out.push_str(&format!("match {} {{ {} }} }}", self.t(range_of(&*m.expr)), arms));
                             return Some(out);
                         }
-                        _ => return None,
+                        other => {
+                            // `let p = a?.b()?.c();` - the `?`s on the receiver spine, one after the other
+                            let ty = l.pat.to_token_stream().to_string();
+                            let _ = ty;
+                            let rest2 = rest.clone();
+                            let pat2 = pat.clone();
+                            let body = self.hoist_tries(other, move |me, left| {
+                                let tr = me.seq(&rest2)?;
+                                Some(format!("{{ let {} = {}; {} }}", pat2, left, tr))
+                            })?;
+                            out.push_str(&body);
+                            out.push_str(" }");
+                            return Some(out);
+                        }
                     }
                 }
                 return None;
@@ -551,6 +575,79 @@ impl<'a> Elim<'a> {
         }
         // nothing leaves: the block as it is (a body without tail expression has value `()`)
         out.push('}');
+        Some(out)
+    }
+    /// the `?` applications on the receiver spine of `e` (the parts that are evaluated first, left to
+    /// right: receiver of a method call, base of a field / index / await / reference / cast / paren),
+    /// innermost first; None when some `?` / `return` sits anywhere else (an argument, a block, ..)
+    fn spine_tries<'s>(e: &'s Expr) -> Option<Vec<&'s ExprTry>> {
+        let mut out: Vec<&'s ExprTry> = vec![];
+        let mut cur = e;
+        loop {
+            match cur {
+                Expr::Try(t) => {
+                    out.push(t);
+                    cur = &t.expr;
+                }
+                Expr::MethodCall(m) => {
+                    if m.args.iter().any(|a| leaves_closure(a)) {
+                        return None;
+                    }
+                    cur = &m.receiver;
+                }
+                Expr::Field(f) => cur = &f.base,
+                Expr::Await(a) => cur = &a.base,
+                Expr::Paren(p) => cur = &p.expr,
+                Expr::Reference(r) => cur = &r.expr,
+                Expr::Cast(c) => cur = &c.expr,
+                Expr::Index(i) => {
+                    if leaves_closure(&i.index) {
+                        return None;
+                    }
+                    cur = &i.expr;
+                }
+                other => {
+                    if leaves_closure(other) {
+                        return None;
+                    }
+                    break;
+                }
+            }
+        }
+        out.reverse();
+        Some(out)
+    }
+    /// `e` with its spine `?`s evaluated one after the other into temporaries; `k` gets the text of
+    /// what is left of `e` and returns the continuation
+    fn hoist_tries<F: FnOnce(&mut Self, String) -> Option<String>>(&mut self, e: &Expr, k: F) -> Option<String> {
+        let tries = Self::spine_tries(e)?;
+        if tries.is_empty() {
+            return None;
+        }
+        let (okc, errarm) = self.try_arm()?;
+        let mut heads: Vec<String> = vec![];
+        let mut prev: Option<((usize, usize), String)> = None;
+        for (i, t) in tries.iter().enumerate() {
+            let op = range_of(&*t.expr);
+            let op_text = match &prev {
+                None => self.t(op),
+                Some((pr, name)) => format!("{}{}{}", self.t((op.0, pr.0)), name, self.t((pr.1, op.1))),
+            };
+            heads.push(format!("match {op_text} {{ {okc}(__t{i}) => "));
+            prev = Some((range_of(*t), format!("__t{i}")));
+        }
+        let er = range_of(e);
+        let (pr, name) = prev.unwrap();
+        let rest_text = format!("{}{}{}", self.t((er.0, pr.0)), name, self.t((pr.1, er.1)));
+        let inner = k(self, rest_text)?;
+        let mut out = String::new();
+        for h in &heads {
+            out.push_str(h);
+        }
+        out.push_str(&inner);
+        for _ in &heads {
+            out.push_str(&format!(", {errarm} }}"));
+        }
         Some(out)
     }
     /// every path through `e` ends in `return` (conservative)
@@ -3565,6 +3662,11 @@ fn main() {
         // itself is still emitted and verified on its own.
         let mut inlined_helpers: Vec<String> = vec![];
         let mut inline_ats: Vec<String> = vec![];
+        // two passes: in the second one a helper body may itself have other helpers written out
+        // (bodies of the first pass, which contain no nested write-outs: depth 2, no recursion)
+        for pass in 0..2 {
+        let seed_map: HashMap<String, InlineInfo> = if pass == 0 { HashMap::new() } else { fc.inline_map.clone() };
+        let mut next_map: HashMap<String, InlineInfo> = HashMap::new();
         for item in file.items.iter().filter(|_| !cfg.no_inline_run) {
             if let Item::Fn(f) = item {
                 let name = f.sig.ident.to_string();
@@ -3586,7 +3688,7 @@ fn main() {
                 if !simple_params || !f.sig.generics.params.is_empty() || ids.contains(&name) {
                     continue;
                 }
-                let mut scratch = FileCtx { cfg: &cfg, src: &src, edits: vec![], rule_counts: BTreeMap::new(), errors: vec![], warnings: vec![], degraded: vec![], extra_eff: extra_eff.clone(), fname: fname.clone(), ro_violations: vec![], field_types: field_types.clone(), locals_out: BTreeMap::new(), private_units: vec![], code_renames: code_renames.clone(), auto_nested: HashMap::new(), tail_calls: HashMap::new(), inline_map: HashMap::new(), no_inline: true, no_probe: false, taints: vec![], rebound_names: rebound_names.clone() };
+                let mut scratch = FileCtx { cfg: &cfg, src: &src, edits: vec![], rule_counts: BTreeMap::new(), errors: vec![], warnings: vec![], degraded: vec![], extra_eff: extra_eff.clone(), fname: fname.clone(), ro_violations: vec![], field_types: field_types.clone(), locals_out: BTreeMap::new(), private_units: vec![], code_renames: code_renames.clone(), auto_nested: HashMap::new(), tail_calls: HashMap::new(), inline_map: seed_map.clone(), no_inline: pass == 0, no_probe: false, taints: vec![], rebound_names: rebound_names.clone() };
                 process_fn(&mut scratch, &f.attrs, &f.vis, &f.sig, Some(&f.block), &u, &nested, &name, false);
                 let mut errs = vec![];
                 let (body, _) = apply_edits(&src, range_of(&*f.block), &scratch.edits, &mut errs);
@@ -3614,7 +3716,7 @@ fn main() {
                     let mut el = Elim { src: &src, edits: &scratch.edits, try_kind: tk, fuel: 48, bad: std::cell::Cell::new(false) };
                     el.seq(&[WorkItem::Stmts(&f.block.stmts, true)]).filter(|_| !el.bad.get())
                 } else { None };
-                fc.inline_map.insert(name.clone(), InlineInfo { hid: u.id.clone(), body_flat, recv: 0, leaves: lk, ret_norm: f.sig.output.to_token_stream().to_string(), is_async: f.sig.asyncness.is_some(), params, ret, body, world: u.world.clone(), owner: None, taints: scratch.taints.iter().map(|t| t.split_once('|').map(|x| x.1.to_string()).unwrap_or_default()).collect() });
+                next_map.insert(name.clone(), InlineInfo { hid: u.id.clone(), body_flat, recv: 0, leaves: lk, ret_norm: f.sig.output.to_token_stream().to_string(), is_async: f.sig.asyncness.is_some(), params, ret, body, world: u.world.clone(), owner: None, taints: scratch.taints.iter().map(|t| t.split_once('|').map(|x| x.1.to_string()).unwrap_or_default()).collect() });
                 inline_ats.push(at.clone());
             }
         }
@@ -3660,10 +3762,10 @@ fn main() {
                         }
                         let lk = match leave_kind(&m.block) { Some(k) => k, None => continue };
                         if !simple_params || !m.sig.generics.params.is_empty()
-                            || ids.contains(&format!("Self::{name}")) || !cfg.env.attrs_on(&m.attrs).unwrap_or(false) || fc.inline_map.contains_key(&format!("::{name}")) || fc.inline_map.contains_key(&format!(".{name}")) {
+                            || ids.contains(&format!("Self::{name}")) || !cfg.env.attrs_on(&m.attrs).unwrap_or(false) || next_map.contains_key(&format!("::{name}")) || next_map.contains_key(&format!(".{name}")) {
                             continue;
                         }
-                        let mut scratch = FileCtx { cfg: &cfg, src: &src, edits: vec![], rule_counts: BTreeMap::new(), errors: vec![], warnings: vec![], degraded: vec![], extra_eff: extra_eff.clone(), fname: fname.clone(), ro_violations: vec![], field_types: field_types.clone(), locals_out: BTreeMap::new(), private_units: vec![], code_renames: code_renames.clone(), auto_nested: HashMap::new(), tail_calls: HashMap::new(), inline_map: HashMap::new(), no_inline: true, no_probe: false, taints: vec![], rebound_names: rebound_names.clone() };
+                        let mut scratch = FileCtx { cfg: &cfg, src: &src, edits: vec![], rule_counts: BTreeMap::new(), errors: vec![], warnings: vec![], degraded: vec![], extra_eff: extra_eff.clone(), fname: fname.clone(), ro_violations: vec![], field_types: field_types.clone(), locals_out: BTreeMap::new(), private_units: vec![], code_renames: code_renames.clone(), auto_nested: HashMap::new(), tail_calls: HashMap::new(), inline_map: seed_map.clone(), no_inline: pass == 0, no_probe: false, taints: vec![], rebound_names: rebound_names.clone() };
                         process_fn(&mut scratch, &m.attrs, &m.vis, &m.sig, Some(&m.block), &u, &nested, &name, false);
                         let mut errs = vec![];
                         let (body, _) = apply_edits(&src, range_of(&m.block), &scratch.edits, &mut errs);
@@ -3697,7 +3799,7 @@ fn main() {
                             let mut el = Elim { src: &src, edits: &scratch.edits, try_kind: tk, fuel: 48, bad: std::cell::Cell::new(false) };
                             el.seq(&[WorkItem::Stmts(&m.block.stmts, true)]).filter(|_| !el.bad.get()).map(|t| subst_idents(&t, &selfmap))
                         } else { None };
-                        fc.inline_map.insert(if recv_kind == 0 { format!("::{name}") } else { format!(".{name}") }, InlineInfo { hid: u.id.clone(), body_flat, recv: recv_kind, leaves: lk, ret_norm: subst_idents(&m.sig.output.to_token_stream().to_string(), &selfmap), is_async: m.sig.asyncness.is_some(), params, ret, body, world: u.world.clone(), owner: Some(self_ty_key(&im.self_ty)), taints: scratch.taints.iter().map(|t| t.split_once('|').map(|x| x.1.to_string()).unwrap_or_default()).collect() });
+                        next_map.insert(if recv_kind == 0 { format!("::{name}") } else { format!(".{name}") }, InlineInfo { hid: u.id.clone(), body_flat, recv: recv_kind, leaves: lk, ret_norm: subst_idents(&m.sig.output.to_token_stream().to_string(), &selfmap), is_async: m.sig.asyncness.is_some(), params, ret, body, world: u.world.clone(), owner: Some(self_ty_key(&im.self_ty)), taints: scratch.taints.iter().map(|t| t.split_once('|').map(|x| x.1.to_string()).unwrap_or_default()).collect() });
                         inlined_helpers.push(u.id.clone());
                         inline_ats.push(at.clone());
                     }
@@ -3705,6 +3807,9 @@ fn main() {
             }
         }
 
+        fc.inline_map = next_map;
+        }
+        inlined_helpers.sort(); inlined_helpers.dedup(); inline_ats.sort(); inline_ats.dedup();
         // an inlined helper's standalone copy keeps its signature only (it is verified in the
         // context of each caller; a call that is not written out knows nothing about its result)
         for at in &inline_ats {
